@@ -598,6 +598,10 @@ def run(prog: Program) -> Results:
             res.add("R-C03-14", (f.key, "tuple unpacked in the opposite order", norm(a.value.func)), f.loc(a),
                     f"{f.key}: `{norm(a)[:70]}` but {why}: the end-of-line comments are treated as own-line ones and vice versa — their order "
                     f"in the output is reversed and a `#` comment can swallow the next one")
+    from sa.rules import linecomment
+    linecomment.check(prog, res, "R-C03-15")
+    from sa.rules.c01 import no_greedy_strip
+    no_greedy_strip(prog, res, "R-C03-16")  # a comment keeps its wording: `*/` is cut off by position, not by a character-set strip
     res.tables.append(f"sa/tables/grammar.py: {len(PRODUCTIONS)} productions, {len(GENERIC_CLASSES)} generic walkers")
     res.assumptions = ["relative order of two comments routed into different slots of the same gap is a value-level fact and is not decided"]
     return res
